@@ -125,7 +125,7 @@ func c05Input(c *core.Ctx, r *core.Reporter) {
 						if fo == self {
 							selfCalls++
 						}
-						calls[fo.Name()] = true
+						calls[core.N(fo)] = true
 					}
 				case *ast.BasicLit:
 					if y.Kind == token.STRING {
@@ -357,7 +357,7 @@ func c05Order(c *core.Ctx, r *core.Reporter) {
 				for b := range reach {
 					for _, in := range b.Instrs {
 						if st, ok := in.(*ssa.Store); ok {
-							if f := core.FieldOf(st.Addr); f != nil && f.Name() == "Data" {
+							if f := core.FieldOf(st.Addr); f != nil && core.N(f) == "Data" {
 								storesData = true
 							}
 						}
@@ -468,7 +468,7 @@ func c05FieldLoop(c *core.Ctx, r *core.Reporter) {
 				continue
 			}
 			if call, ok := rs.X.(*ast.CallExpr); ok {
-				if f := core.CalleeObj(info, call); f != nil && f.Name() == "Fields" {
+				if f := core.CalleeObj(info, call); f != nil && core.N(f) == "Fields" {
 					loop = i
 					break
 				}
